@@ -59,7 +59,7 @@ func (propC18) InputType() string      { return "c18_case" }
 func (propC18) ObsType() string        { return "c18_obs" }
 func (propC18) Exhaustive(string) bool { return false }
 func (propC18) Rule() string {
-	return "one built-in call (possibly with nested calls as arguments) per case, evaluated through SQL on the real engine; structured streams per function (array shapes x indices -2..n+1/fractional/huge/NULL, all bases/algorithms/type names in mixed case plus unknown ones, every scalar kind, arrays empty/nested/with NULLs), every registered name x arities 0..4, random nested expressions, and the registration table; a case is non-trivial when the call has at least one argument and is not a pure wrong-arity probe; distinct = distinct (form, context, expression)"
+	return "one built-in call (possibly with nested calls as arguments) per case, evaluated through SQL on the real engine; structured streams per function (array shapes x indices -2..n+1/fractional/huge/NULL, all bases/algorithms/type names in mixed case plus unknown ones, every scalar kind, arrays empty/nested/with NULLs), every registered name x arities 0..4, random nested expressions, and the registration table; results are rendered type-exactly (a Go int, an Ommit, a nil slice or nil map in the place of an array / object is a tag no model value equals: ARRAY() is the empty array, not a missing one); a case is non-trivial when the call has at least one argument and is not a pure wrong-arity probe; distinct = distinct (form, context, expression)"
 }
 
 // ---------- expression helpers ----------
@@ -171,12 +171,20 @@ func c18Val(v any) string {
 	case genql.Ommit:
 		return "(VObj [(\"<<omit>>\"%string, VBool " + coqBool(bool(t)) + ")])"
 	case []any:
+		if t == nil {
+			// a nil slice is not the empty array: it serialises as JSON null, is not DeepEqual to []any{} and prints as
+			// []interface {}(nil). A function that returns "an array" returns a non-nil slice; no model value equals this tag
+			return "(VObj [(\"<<nil-slice>>\"%string, VNull)])"
+		}
 		items := make([]string, len(t))
 		for i, x := range t {
 			items[i] = c18Val(x)
 		}
 		return "(VArr " + coqList(items) + ")"
 	case map[string]any:
+		if t == nil {
+			return "(VObj [(\"<<nil-map>>\"%string, VNull)])"
+		}
 		keys := make([]string, 0, len(t))
 		for k := range t {
 			keys = append(keys, k)
